@@ -248,6 +248,8 @@ def run_check(prop, tier, seed, runs=None, nworkers=None, wall=None, extra_env=N
             # 2. unmatched violations: shrink (bounded number per class), verify the minimised replay in a
             #    fresh interpreter, write replay files.  Runs beyond the shrink cap are reported unshrunk.
             cap = 4 if tier == "quick" else 8
+            if os.environ.get("VERIF_NO_SHRINK"):
+                cap = 0  # sensitivity runs: report unshrunk, skip minimisation and fresh-process replay
             by_cls = {}
             for r in unmatched:
                 by_cls.setdefault(r["cls"], []).append(r)
